@@ -233,6 +233,7 @@ Proof.
   all: try (destruct prog as [|[] ?]; cbn in *; try discriminate; try (left; split; reflexivity);
             try (right; right; repeat split; reflexivity); fail).
   all: try (right; left; repeat split; first [reflexivity | assumption]).
+  all: try (left; split; first [reflexivity | assumption]).
 Qed.
 
 (* ---- frames of the individual actions ------------------------------------------------ *)
